@@ -116,7 +116,6 @@ let oracle parse_ip cfg (r : req) (a : ans) (res : result) (tv : z) : (string * 
                     (match c.c_san with SanIP s -> "IP:" ^ hex_of_chars s | SanDNS s -> "DNS:" ^ hex_of_chars s))
        | Some h ->
            if not (cert_for_name parse_ip c h) then fail "never_other_name" ("cert-not-issued-for=" ^ hex_of_chars h)
-           else if not onesan then fail "never_other_name" "more-than-one-SAN"
            else if not (chains cfg c) then fail "chains_to_ca" "x509-chain-verification-failed"
            else if not (cert_org_ok cfg c) then fail "organization" ("got=" ^ hex_of_chars c.c_org)
            else if not (cert_key_ok cfg c) then fail "key_held_by_proxy" "key/chain-shape"
@@ -140,13 +139,14 @@ let model_step parse_ip cfg st (r : req) (a : ans) (seen : (int, unit) Hashtbl.t
          (match m2 with
           | Refused -> Either.Left (st', Refused)
           | _ -> Either.Right "model-answers-with-a-certificate-implementation-refused"))
-  | ACert (c, _, tb, ta, tv, v, ob, _) ->
+  | ACert (c, onesan, tb, ta, tv, v, ob, _) ->
       let idx = int_of_nat c.c_serial in
       let was_seen = Hashtbl.mem seen idx in
       Hashtbl.replace seen idx ();
       let obs = if was_seen then Hit c else Issued c in
       (* real x509 against the model of x509 on the observed fields *)
-      if r.vname <> [] && x509_verify parse_ip cfg c r.vname tv <> v then
+      if not onesan then Either.Right "leaf-does-not-carry-exactly-one-SAN"
+      else if r.vname <> [] && x509_verify parse_ip cfg c r.vname tv <> v then
         Either.Right (Printf.sprintf "x509-model-differs-from-real-verify name=%s real=%b" (hex_of_chars r.vname) v)
       else if ob <> "-" && (String.length ob <> List.length r.others ||
                             List.exists2 (fun o b -> x509_verify parse_ip cfg c o tv <> (b = '1')) r.others
@@ -299,7 +299,10 @@ let judge_conc parse_ip cfg (ops : string list) (outs : string list) : verdict =
                  | Hit _, _ -> true
                  | _ -> false)
             | _ -> false) fins in
-        if unexplained <> [] then
+        let multi = List.exists (fun (_, a, _) ->
+            match a with ACert (_, false, _, _, _, _, _, _) -> true | _ -> false) (flat @ fins) in
+        if multi then VDisagree "leaf-does-not-carry-exactly-one-SAN"
+        else if unexplained <> [] then
           VDisagree (Printf.sprintf "certificate#%d-window-not-explained-by-any-receiving-call" (List.hd unexplained))
         else if bad_final then VDisagree "after-join-hit-not-reproduced-by-model"
         else VOk (List.length ths >= 2)
